@@ -489,8 +489,13 @@ func (s Subtitles) WriteToWebVTT(o io.Writer) (err error) {
 	c = append(c, []byte("\n\n")...)
 
 	var style []string
-	for _, s := range s.Styles {
-		if s.InlineStyle != nil {
+	var styleIDs []string
+	for id := range s.Styles {
+		styleIDs = append(styleIDs, id)
+	}
+	sort.Strings(styleIDs)
+	for _, id := range styleIDs {
+		if s := s.Styles[id]; s.InlineStyle != nil {
 			style = append(style, s.InlineStyle.WebVTTStyles...)
 		}
 	}
